@@ -117,11 +117,12 @@ def run(ctx):
     K.report_mismatch(ctx, spec_violated)
     # Spec oracle over the whole run, on the implementation's replies only
     if not getattr(ctx, "pending_mismatch", None):
-        for _, _, c in corrs:
+        for name, dargs, c in corrs:
             if c.err:
                 continue
             for cs in c.cases:
                 rep = K.case_replay(c, cs)
+                rep["correspondence"], rep["drv_args"] = name, dargs
                 why = spec_violated(rep)
                 if why:
                     ctx.violation("implementation violates the property: " + why, rep, tag="impl")
